@@ -7,4 +7,5 @@ Set Extraction KeepSingleton.
 Extraction "apd_model.ml"
   cond_of_Z cond_to_Z
   corr_full oracle_c01 oracle_c02_arith oracle_c07 judge_numdigits judge_dec_reduce oracle_ctx_reduce
+  oracle_c08 oracle_c09 oracle_c10 oracle_c15_ctx judge_cmp
   run_model same_value.
